@@ -107,22 +107,20 @@ func runProperty(p *Property, opts *Options, replay bool) int {
 			opts.known = append(opts.known, k)
 		}
 	}
-	per := opts.Workers / len(specs)
-	if per < 1 {
-		per = 1
-	}
+	per := opts.Workers
 	if per > 8 {
 		per = 8
 	}
+	if per < 1 {
+		per = 1
+	}
+	gSlots = make(chan struct{}, opts.Workers)
 	results := make([]*HarnessResult, len(specs))
 	var wg sync.WaitGroup
-	sem := make(chan struct{}, maxInt(1, opts.Workers/per))
 	for i, s := range specs {
 		wg.Add(1)
 		go func(i int, s *HarnessSpec) {
 			defer wg.Done()
-			sem <- struct{}{}
-			defer func() { <-sem }()
 			results[i] = runHarness(L, s, opts, per)
 		}(i, s)
 	}
@@ -385,6 +383,12 @@ func writeEvidence(p *Property, opts *Options, specs []*HarnessSpec, results []*
 		"outside_claim":              p.Outside,
 		"inconclusive":               problems,
 		"source_tree":                "encoding regenerated from /repo working tree on this run (go/packages + go/ssa, overlay harness)",
+	}
+	if p.Assumptions == nil {
+		p.Assumptions = []string{}
+	}
+	if p.Outside == nil {
+		p.Outside = []string{}
 	}
 	ev := map[string]interface{}{
 		"property_id": p.ID,
